@@ -147,7 +147,7 @@ LANGS = [("txt", "plaintext", ""), ("md", "markdown", ""), ("rs", "rust", "// ")
          ("lhs", "lhaskell", ""), ("txt", "git-commit", ""), ("xyz", "no-such-language", "")]
 
 
-def random_session(c, docdir, rng, corpus, ndocs=4, nops=18):
+def random_session(c, docdir, rng, corpus, ndocs=4, nops=18, pol=None):
     """A random session: documents in random languages whose prose names hosts, addresses and files;
     random edits, code-action requests anywhere, every offered command except HarperOpen, dictionary
     commands, saves, configuration changes, closes and re-opens, deletions."""
@@ -176,9 +176,9 @@ def random_session(c, docdir, rng, corpus, ndocs=4, nops=18):
     for d in docs:
         c.notify("textDocument/didOpen", {"textDocument": {"uri": d["uri"], "languageId": d["lang"], "version": 1, "text": d["text"]}})
         d["open"] = True
-    for _ in range(nops):
+    for opi in range(nops):
         d = rng.choice(docs)
-        op = rng.choice(["change", "action", "action", "action", "adduser", "addfile", "save", "config", "close", "delete"])
+        op = "moveuser" if (opi == nops // 2 and d["open"] and pol is not None and not pol.get("retired")) else rng.choice(["change", "action", "action", "action", "adduser", "addfile", "save", "config", "close", "delete", "moveuser"])
         if not d["open"]:
             c.notify("textDocument/didOpen", {"textDocument": {"uri": d["uri"], "languageId": d["lang"], "version": 1, "text": d["text"]}})
             d["open"] = True
@@ -214,6 +214,21 @@ def random_session(c, docdir, rng, corpus, ndocs=4, nops=18):
             st["harper-ls"]["isolateEnglish"] = rng.random() < 0.3
             c.settings = st
             c.notify("workspace/didChangeConfiguration", {"settings": st})
+        elif op == "moveuser" and pol is not None and not pol.get("retired"):
+            # the settings name another user dictionary from now on; the server is not told, it finds out when it
+            # next asks (every document update does). Once it has published for that update, the old place is retired.
+            st = json.loads(json.dumps(c.settings))
+            old_path = st["harper-ls"]["userDictPath"]
+            new_path = os.path.join(os.path.dirname(os.path.dirname(old_path)), "moved", "words.txt")
+            st["harper-ls"]["userDictPath"] = new_path
+            c.settings = st
+            n0 = len(c.notifications)
+            d["ver"] += 1
+            c.notify("textDocument/didChange", {"textDocument": {"uri": d["uri"], "version": d["ver"]}, "contentChanges": [{"text": d["text"]}]})
+            c.wait_publish(d["uri"], n0)
+            pol["retired"] = [(os.path.normpath(old_path), time.time())]
+            pol["userDict"] = os.path.normpath(new_path)
+            c.request("workspace/executeCommand", {"command": "HarperAddToUserDict", "arguments": ["movedword", d["uri"]]})
         elif op == "close":
             c.notify("textDocument/didClose", {"textDocument": {"uri": d["uri"]}})
             d["open"] = False
